@@ -191,6 +191,21 @@ theorem findBoundary_terminates (s : Bytes) (fuel e : Nat) (h : s.length + 2 ≤
       · simp only [a, b, ↓reduceIte]
         exact ih (e + 1) (by omega) (by omega)
 
+/-- `ParseError::new` is total for `startPos ≤ errPos ≤ |initial|`. -/
+theorem parseErrorNew_total (initial : Bytes) (startPos errPos : Nat)
+    (h1 : startPos ≤ errPos) (h2 : errPos ≤ initial.length) :
+    ∃ pe, parseErrorNew (parseErrorFuel initial) initial startPos errPos = .ok pe := by
+  have hs : startPos ≤ initial.length := by omega
+  have hinput : (initial.drop startPos).length = initial.length - startPos := by simp
+  obtain ⟨r, hr⟩ := findBoundary_terminates (initial.drop startPos) (parseErrorFuel initial) (errPos - startPos + 1)
+    (by rw [hinput]; show initial.length - startPos + 2 ≤ initial.length + 1 + (errPos - startPos + 1); omega)
+    (by rw [hinput]; omega)
+  refine ⟨⟨1 + countLF (initial.take startPos), ⟨errPos - startPos, r.getD (errPos - startPos)⟩,
+    initial.drop startPos⟩, ?_⟩
+  simp only [parseErrorNew]
+  rw [if_neg (by omega)]
+  simp [computeLineNumber, hs, hr]
+
 theorem processFrom_err_index (st : ProcState) (k : Nat) (es : List Entry) (i : Nat) (x : BkErrS)
     (h : processFrom st k es = .err (i, x)) :
     k ≤ i ∧ i < k + es.length ∧
